@@ -1219,6 +1219,18 @@ type c19ListResolver struct {
 	// the list has come through — decode succeeded / the helper that decoded reported no error
 	gates map[*ssa.Function][]string
 	why   string
+	// the calls the resolution has descended through (innermost last): a parameter of the function being looked at is
+	// the argument of the call it was entered through
+	stack []c19ListUp
+}
+
+// c19ListUp: the caller's side of a call the list resolution descended through.
+type c19ListUp struct {
+	fn    *ssa.Function // the caller
+	h     *ssa.Function // the function entered
+	call  *ssa.Call
+	tr    func(string) string
+	outer map[string]string
 }
 
 // leaves resolves a list value to the decodes it comes from: through phis, through the result of an unexported
@@ -1227,8 +1239,22 @@ type c19ListResolver struct {
 // into the helper's summary and leaves the clause unchanged: the list is still a field of the manifest decoded
 // from the bytes the caller passed, under the media-type test that (after parameter substitution) reads the
 // caller's descriptor.
+//
+// Fifth pass — the list may travel inside a record. What the helper hands back (or what the lookup itself fills in)
+// may be a small struct that bundles the decoded fields (`manifestView{subject: m.Subject, …, blobs: m.Layers}`), by
+// value or by pointer, assembled by a composite literal, by field assignments on alternative branches or by a
+// constructor function; the lookup then reads the list out of that record. Reading field f of a record whose
+// address never leaves the functions looked at (c19RecordUses / c19PtrReadOnly) yields what one of the writers of f
+// stored: the field stores of f and, for a store of a whole record value, field f of that value (fieldOfAddr /
+// fieldOfValue). The resolution takes the union over ALL such writers, wherever they stand, and requires each of
+// them to be the layer/blob list of a manifest decoded from the fetched bytes under the media-type test that belongs
+// to its type; a record nobody has written yet holds the empty list, which cannot pass `len == 1` and so contributes
+// no success. Hence the clause holds for whatever writer the read actually sees, and the bundling adds nothing to
+// and removes nothing from what the obligation demands of the decode: its guard, its source bytes and its error
+// gate are found where the decode stands, exactly as when the helper returns the list itself. A parameter of a
+// function entered on the way (a constructor `newView(m.Subject, …, m.Layers)`) is the argument of that very call.
 func (r *c19ListResolver) leaves(fn *ssa.Function, v ssa.Value, tr func(string) string, outer map[string]string, depth int) []c19Decode {
-	if depth > 4 {
+	if depth > 16 {
 		r.why = "list value nested too deeply"
 		return nil
 	}
@@ -1242,108 +1268,327 @@ func (r *c19ListResolver) leaves(fn *ssa.Function, v ssa.Value, tr func(string) 
 			out = append(out, r.leaves(fn, e, tr, outer, depth+1)...)
 		}
 		return out
+	case *ssa.Parameter:
+		if out, ok := r.inCaller(fn, x, func(up c19ListUp, arg ssa.Value) ([]c19Decode, bool) {
+			return r.leaves(up.fn, arg, up.tr, up.outer, depth+1), true
+		}); ok {
+			return out
+		}
 	case *ssa.Extract:
 		hc, ok := x.Tuple.(*ssa.Call)
-		if !ok || isErrorType(x.Type()) || hc.Call.IsInvoke() {
+		if !ok || isErrorType(x.Type()) {
 			break
 		}
-		// the function(s) the call can run: its static callee, or — for a call of what a lookup in a read-only table
-		// delivered (c19Table) — each function of the table, under the fact that the key looked up is that
-		// function's key: `table[x](…)` runs the entry stored under k only when x == k, the table never changes, so
-		// the dispatch is the case distinction `switch x { case k1: f1(…) … }` written as data.
-		type target struct {
-			h    *ssa.Function
-			fact string // in fn's frame; "" for a static call
+		if out, ok := r.throughCall(fn, hc, x.Index, tr, outer, func(h *ssa.Function, rv ssa.Value, tr2 func(string) string, out2 map[string]string) ([]c19Decode, bool) {
+			return r.leaves(h, rv, tr2, out2, depth+1), true
+		}); ok {
+			return out
 		}
-		var targets []target
-		if h := staticCallee(hc); h != nil {
-			targets = append(targets, target{h, ""})
-		} else if tb, lk, elem := c19TableLookup(r.w, hc.Call.Value); tb != nil && elem {
-			for i, k := range tb.Keys {
-				h, _ := tb.Vals[i].(*ssa.Function)
-				if h == nil || len(h.FreeVars) > 0 {
-					targets = nil
-					break
-				}
-				targets = append(targets, target{h, "EQ(" + desc(lk.Index) + "," + desc(k) + ")"})
-			}
+	case *ssa.Call:
+		if out, ok := r.throughCall(fn, x, 0, tr, outer, func(h *ssa.Function, rv ssa.Value, tr2 func(string) string, out2 map[string]string) ([]c19Decode, bool) {
+			return r.leaves(h, rv, tr2, out2, depth+1), true
+		}); ok {
+			return out
 		}
-		if len(targets) == 0 {
-			break
+	case *ssa.Field:
+		if out, ok := r.fieldOfValue(fn, x.X, x.Field, tr, outer, depth+1); ok {
+			return out
 		}
-		var out []c19Decode
-		understood := true
-		for _, t := range targets {
-			h := t.h
-			if h == fn || h.Blocks == nil || !r.w.IsProductFn(h) || len(hc.Call.Args) != len(h.Params) {
-				understood = false
-				break
-			}
-			s := r.w.Summarize(h, Mode{Kind: mErr})
-			if s == nil || !s.Complete || len(s.Exits) == 0 {
-				understood = false
-				break
-			}
-			out2 := map[string]string{}
-			for l, st := range outer {
-				out2[l] = st
-			}
-			for l, st := range r.w.Info(fn).GuardsOf(hc) {
-				out2[tr(l)] = st
-			}
-			if t.fact != "" {
-				out2[tr(t.fact)] = "table dispatch at " + r.w.InstrPos(hc)
-			}
-			tr2 := c19Into(h, hc, tr)
-			for _, e := range s.Exits {
-				if x.Index >= len(e.Ret.Results) {
-					r.why = "helper result not understood"
-					return nil
-				}
-				rv := spilledRet(e.Ret.Results[x.Index])
-				if ph, isPhi := rv.(*ssa.Phi); isPhi && ph.Block() == e.Ret.Block() && e.Pred >= 0 && e.Pred < len(ph.Edges) {
-					rv = ph.Edges[e.Pred]
-				}
-				out = append(out, r.leaves(h, rv, tr2, out2, depth+1)...)
-			}
-		}
-		if !understood {
-			break
-		}
-		r.gates[fn] = append(r.gates[fn], c19ErrNil(hc))
-		return out
 	case *ssa.UnOp:
 		fa, ok := x.X.(*ssa.FieldAddr)
 		if !ok || x.Op != token.MUL {
 			break
 		}
-		X, ok := fa.X.(*ssa.Alloc)
-		if !ok {
-			break
+		if X, ok := fa.X.(*ssa.Alloc); ok {
+			var out []c19Decode
+			for _, ci := range findCalls(fn, "encoding/json.Unmarshal") {
+				U := ci.(*ssa.Call)
+				mi, ok := U.Call.Args[1].(*ssa.MakeInterface)
+				if !ok || mi.X != ssa.Value(X) {
+					continue
+				}
+				g := map[string]string{}
+				for l, st := range outer {
+					g[l] = st
+				}
+				for l, st := range r.w.Info(fn).GuardsOf(U) {
+					g[tr(l)] = st
+				}
+				r.gates[fn] = append(r.gates[fn], "EQ("+desc(U)+",nil)")
+				out = append(out, c19Decode{Fn: fn, U: U, X: X, Typ: namedOf(X.Type()), Field: fieldName(fa.X.Type(), fa.Field), Guard: g, Src: tr(desc(U.Call.Args[0]))})
+			}
+			if len(out) > 0 {
+				return out
+			}
 		}
-		var out []c19Decode
-		for _, ci := range findCalls(fn, "encoding/json.Unmarshal") {
-			U := ci.(*ssa.Call)
-			mi, ok := U.Call.Args[1].(*ssa.MakeInterface)
-			if !ok || mi.X != ssa.Value(X) {
-				continue
-			}
-			g := map[string]string{}
-			for l, st := range outer {
-				g[l] = st
-			}
-			for l, st := range r.w.Info(fn).GuardsOf(U) {
-				g[tr(l)] = st
-			}
-			r.gates[fn] = append(r.gates[fn], "EQ("+desc(U)+",nil)")
-			out = append(out, c19Decode{Fn: fn, U: U, X: X, Typ: namedOf(X.Type()), Field: fieldName(fa.X.Type(), fa.Field), Guard: g, Src: tr(desc(U.Call.Args[0]))})
-		}
-		if len(out) > 0 {
+		// not a decode target: a record the list travels in
+		if out, ok := r.fieldOfAddr(fn, fa.X, fa.Field, tr, outer, depth+1); ok {
 			return out
 		}
 	}
-	r.why = "list leaf " + trunc(tr(desc(v)), 160) + " is not the layer/blob list of a decoded manifest"
+	if r.why == "" {
+		r.why = "list leaf " + trunc(tr(desc(v)), 160) + " is not the layer/blob list of a decoded manifest"
+	}
 	return nil
+}
+
+// inCaller: p is a parameter of fn, and fn was entered through the call on top of the stack: cont is run on the
+// argument bound to p, in the caller's frame (with the stack as it was when the caller was looked at).
+func (r *c19ListResolver) inCaller(fn *ssa.Function, p *ssa.Parameter, cont func(up c19ListUp, arg ssa.Value) ([]c19Decode, bool)) ([]c19Decode, bool) {
+	n := len(r.stack)
+	if n == 0 || r.stack[n-1].h != fn || len(fn.FreeVars) > 0 {
+		return nil, false
+	}
+	up := r.stack[n-1]
+	for i, q := range fn.Params {
+		if q != p || i >= len(up.call.Call.Args) {
+			continue
+		}
+		saved := r.stack
+		r.stack = append([]c19ListUp(nil), saved[:n-1]...)
+		out, ok := cont(up, up.call.Call.Args[i])
+		r.stack = saved
+		return out, ok
+	}
+	return nil, false
+}
+
+// throughCall: result idx of the call hc (in fn) as what the function(s) it can run return there: cont is run, in
+// the callee's frame, on the value each success-capable exit returns (a function with an error result: the caller's
+// test of that error is recorded as a gate of fn) resp. on the value of every return statement (a function with a
+// single, non-error result: a constructor). ok is false when the call is not one the resolver can see through.
+func (r *c19ListResolver) throughCall(fn *ssa.Function, hc *ssa.Call, idx int, tr func(string) string, outer map[string]string, cont func(h *ssa.Function, rv ssa.Value, tr2 func(string) string, out2 map[string]string) ([]c19Decode, bool)) ([]c19Decode, bool) {
+	if hc.Call.IsInvoke() {
+		return nil, false
+	}
+	// the function(s) the call can run: its static callee, or — for a call of what a lookup in a read-only table
+	// delivered (c19Table) — each function of the table, under the fact that the key looked up is that
+	// function's key: `table[x](…)` runs the entry stored under k only when x == k, the table never changes, so
+	// the dispatch is the case distinction `switch x { case k1: f1(…) … }` written as data.
+	type target struct {
+		h    *ssa.Function
+		fact string // in fn's frame; "" for a static call
+	}
+	var targets []target
+	if h := staticCallee(hc); h != nil {
+		targets = append(targets, target{h, ""})
+	} else if tb, lk, elem := c19TableLookup(r.w, hc.Call.Value); tb != nil && elem {
+		for i, k := range tb.Keys {
+			h, _ := tb.Vals[i].(*ssa.Function)
+			if h == nil || len(h.FreeVars) > 0 {
+				targets = nil
+				break
+			}
+			targets = append(targets, target{h, "EQ(" + desc(lk.Index) + "," + desc(k) + ")"})
+		}
+	}
+	if len(targets) == 0 {
+		return nil, false
+	}
+	for _, t := range targets {
+		h := t.h
+		if h == fn || h.Blocks == nil || !r.w.IsProductFn(h) || len(hc.Call.Args) != len(h.Params) {
+			return nil, false
+		}
+		for _, up := range r.stack {
+			if up.h == h {
+				return nil, false
+			}
+		}
+	}
+	var out []c19Decode
+	gated := false
+	for _, t := range targets {
+		h := t.h
+		out2 := map[string]string{}
+		for l, st := range outer {
+			out2[l] = st
+		}
+		for l, st := range r.w.Info(fn).GuardsOf(hc) {
+			out2[tr(l)] = st
+		}
+		if t.fact != "" {
+			out2[tr(t.fact)] = "table dispatch at " + r.w.InstrPos(hc)
+		}
+		tr2 := c19Into(h, hc, tr)
+		var rvs []ssa.Value
+		rs := h.Signature.Results()
+		if rs.Len() == 1 && !isErrorType(rs.At(0).Type()) {
+			if idx != 0 {
+				return nil, false
+			}
+			for _, b := range h.Blocks {
+				if ret, ok := blockTerm(b).(*ssa.Return); ok && len(ret.Results) == 1 {
+					rvs = append(rvs, spilledRet(ret.Results[0]))
+				}
+			}
+			if len(rvs) == 0 {
+				return nil, false
+			}
+		} else {
+			if rs.Len() < 2 || !isErrorType(rs.At(rs.Len()-1).Type()) {
+				return nil, false
+			}
+			s := r.w.Summarize(h, Mode{Kind: mErr})
+			if s == nil || !s.Complete || len(s.Exits) == 0 {
+				return nil, false
+			}
+			for _, e := range s.Exits {
+				if idx >= len(e.Ret.Results) {
+					r.why = "helper result not understood"
+					return nil, true
+				}
+				rv := spilledRet(e.Ret.Results[idx])
+				if ph, isPhi := rv.(*ssa.Phi); isPhi && ph.Block() == e.Ret.Block() && e.Pred >= 0 && e.Pred < len(ph.Edges) {
+					rv = ph.Edges[e.Pred]
+				}
+				rvs = append(rvs, rv)
+			}
+			gated = true
+		}
+		r.stack = append(r.stack, c19ListUp{fn: fn, h: h, call: hc, tr: tr, outer: outer})
+		for _, rv := range rvs {
+			o, ok := cont(h, rv, tr2, out2)
+			if !ok {
+				r.stack = r.stack[:len(r.stack)-1]
+				return nil, false
+			}
+			out = append(out, o...)
+		}
+		r.stack = r.stack[:len(r.stack)-1]
+	}
+	if gated {
+		r.gates[fn] = append(r.gates[fn], c19ErrNil(hc))
+	}
+	return out, true
+}
+
+// fieldOfAddr: the decodes field #field of the record at address addr (a value of fn) can come from; ok is false
+// when the record is not one the resolver can see all writers of.
+//   - a local record (struct variable, composite literal, `&T{…}`) whose address goes nowhere but into loads, stores,
+//     field addresses that are only loaded from / stored to, read-only module callees and a return of the address
+//     (c19RecordUses): every store to that field, and that field of every whole value stored;
+//   - a record handed back by pointer by a module function (a result of a call), only read through in fn
+//     (c19PtrReadOnly): the same question about what each exit of that function returns;
+//   - a record handed in by pointer (parameter, only read through in fn): the same question about the argument.
+func (r *c19ListResolver) fieldOfAddr(fn *ssa.Function, addr ssa.Value, field int, tr func(string) string, outer map[string]string, depth int) ([]c19Decode, bool) {
+	if depth > 16 {
+		return nil, false
+	}
+	switch a := addr.(type) {
+	case *ssa.Alloc:
+		if a.Parent() != fn {
+			return nil, false
+		}
+		whole, ok := c19RecordUses(a, true)
+		if !ok {
+			return nil, false
+		}
+		var out []c19Decode
+		for _, b := range fn.Blocks {
+			for _, in := range b.Instrs {
+				st, ok := in.(*ssa.Store)
+				if !ok {
+					continue
+				}
+				if fa, ok := st.Addr.(*ssa.FieldAddr); ok && fa.X == ssa.Value(a) && fa.Field == field {
+					out = append(out, r.leaves(fn, st.Val, tr, outer, depth+1)...)
+				}
+			}
+		}
+		for _, st := range whole {
+			o, ok := r.fieldOfValue(fn, st.Val, field, tr, outer, depth+1)
+			if !ok {
+				return nil, false
+			}
+			out = append(out, o...)
+		}
+		return out, true
+	case *ssa.Phi:
+		var out []c19Decode
+		for _, e := range a.Edges {
+			if e == addr || isNilConst(e) {
+				continue
+			}
+			o, ok := r.fieldOfAddr(fn, e, field, tr, outer, depth+1)
+			if !ok {
+				return nil, false
+			}
+			out = append(out, o...)
+		}
+		return out, true
+	case *ssa.Parameter:
+		if !c19PtrReadOnly(a) {
+			return nil, false
+		}
+		return r.inCaller(fn, a, func(up c19ListUp, arg ssa.Value) ([]c19Decode, bool) {
+			return r.fieldOfAddr(up.fn, arg, field, up.tr, up.outer, depth+1)
+		})
+	case *ssa.Extract:
+		hc, isCall := a.Tuple.(*ssa.Call)
+		if !isCall || !c19PtrReadOnly(a) {
+			return nil, false
+		}
+		return r.throughCall(fn, hc, a.Index, tr, outer, func(h *ssa.Function, rv ssa.Value, tr2 func(string) string, out2 map[string]string) ([]c19Decode, bool) {
+			return r.fieldOfAddr(h, rv, field, tr2, out2, depth+1)
+		})
+	case *ssa.Call:
+		if !c19PtrReadOnly(a) {
+			return nil, false
+		}
+		return r.throughCall(fn, a, 0, tr, outer, func(h *ssa.Function, rv ssa.Value, tr2 func(string) string, out2 map[string]string) ([]c19Decode, bool) {
+			return r.fieldOfAddr(h, rv, field, tr2, out2, depth+1)
+		})
+	}
+	return nil, false
+}
+
+// fieldOfValue: the decodes field #field of the record value val (a value of fn) can come from.
+func (r *c19ListResolver) fieldOfValue(fn *ssa.Function, val ssa.Value, field int, tr func(string) string, outer map[string]string, depth int) ([]c19Decode, bool) {
+	if depth > 16 {
+		return nil, false
+	}
+	switch x := val.(type) {
+	case *ssa.Const:
+		// the zero record: its list is empty and cannot pass `len == 1`
+		if x.Value == nil {
+			return nil, true
+		}
+	case *ssa.UnOp:
+		if x.Op == token.MUL {
+			return r.fieldOfAddr(fn, x.X, field, tr, outer, depth+1)
+		}
+	case *ssa.Phi:
+		var out []c19Decode
+		for _, e := range x.Edges {
+			if e == val {
+				continue
+			}
+			o, ok := r.fieldOfValue(fn, e, field, tr, outer, depth+1)
+			if !ok {
+				return nil, false
+			}
+			out = append(out, o...)
+		}
+		return out, true
+	case *ssa.Parameter:
+		return r.inCaller(fn, x, func(up c19ListUp, arg ssa.Value) ([]c19Decode, bool) {
+			return r.fieldOfValue(up.fn, arg, field, up.tr, up.outer, depth+1)
+		})
+	case *ssa.Extract:
+		hc, isCall := x.Tuple.(*ssa.Call)
+		if !isCall {
+			return nil, false
+		}
+		return r.throughCall(fn, hc, x.Index, tr, outer, func(h *ssa.Function, rv ssa.Value, tr2 func(string) string, out2 map[string]string) ([]c19Decode, bool) {
+			return r.fieldOfValue(h, rv, field, tr2, out2, depth+1)
+		})
+	case *ssa.Call:
+		return r.throughCall(fn, x, 0, tr, outer, func(h *ssa.Function, rv ssa.Value, tr2 func(string) string, out2 map[string]string) ([]c19Decode, bool) {
+			return r.fieldOfValue(h, rv, field, tr2, out2, depth+1)
+		})
+	}
+	return nil, false
 }
 
 // ---------- the listing loop (c) ---------------------------------------------------------
